@@ -309,6 +309,20 @@ def main(rec):
             rec.unreach(u[:60])
         for v in rr["violations"]:
             rec.violation(v["mech"], v["detail"] + "\noptions: %r" % (c["row"],), {"lib": c["lib"]["name"], "row": c["row"], "language": c["lib"]["language"]})
+    # declarations guarded by cpp_if (documented per-declaration preprocessor conditions): the Fortran module must be
+    # accepted by the compiler under every setting of the macros the conditions name
+    from . import c08
+    pc = c08.cppif_cases()
+    pres = pool.run_cases("vf.checks.c08", pc, func="run_cppif", timeout=600)
+    for c, rr in zip(pc, pres):
+        if "stats" not in rr:
+            workloads.bad_run(rec, {"name": c["lib"]["name"]}, rr)
+            continue
+        rec.count("cpp_if_module_compiles", rr["stats"].get("cpp_if_module_compiles", 0))
+        rec.case(key="cppif|" + c["lib"]["name"] if rr["stats"].get("cpp_if_module_compiles") else None)
+        for v in rr["violations"]:
+            if "does-not-compile" in v["mech"] or "does-not-preprocess" in v["mech"] or v["mech"].startswith("shroud-rejects"):
+                rec.violation(v["mech"], v["detail"], {"lib": c["lib"]["name"], "conds": c.get("conds")})
     ccases = [{"name": c["name"]} for c in corpus.configs()]
     cres = pool.run_cases("vf.checks.c05", ccases, func="run_corpus", timeout=1800)
     for c, rr in zip(ccases, cres):
